@@ -912,7 +912,14 @@ def filter_spacing_marks(context: KernContext, marks: set[str]) -> list[str]:
                 spacing.append(mark)
         return spacing
 
-    return [mark for mark in marks if context.font[mark].width != 0]
+    # look at the pre-processed glyph (whose advance ends up in the font) when we
+    # have it, not at the unfiltered source glyph
+    glyphSet = context.glyphSet
+    return [
+        mark
+        for mark in marks
+        if (glyphSet[mark] if mark in glyphSet else context.font[mark]).width != 0
+    ]
 
 
 def make_pairpos_rule(
